@@ -11,12 +11,13 @@
 // in the protected per-pair function actual_scatter_estimate(result, A, B) (harness-side subclass `Sim`), for the pair that
 // find_detectors reports for every bin; the stored bin value must equal estimate(A,B).
 //
-// Known findings (work/notes/C16_findings.md, probes in known/C16/): known_signature() classifies a history on the JSON alone
-// (F1 stale 511 keV efficiency after an energy-window change, F2 debug assertion for single-ring scanners, F3 NaN from the
-// automatic scatter-point image of single-ring scanners, F4 repeated automatic scatter-point down-sampling) and such a case is
-// rejected before it runs; the GENERATOR rewrites its histories so that they stay outside these classes (explicit scatter-point
-// image before the set_up for F3/F4, template re-set for F1, no single-ring templates for F2) and the search goes on behind them.
-// VERIF_NO_EXCLUDE=1 (or =F1,F4,...) switches classification and rewriting off.
+// Known finding (probe in known/C16/): known_signature() classifies a history on the JSON alone (F4 repeated automatic
+// scatter-point down-sampling) and such a case is rejected before it runs; the GENERATOR rewrites its histories so that they
+// stay outside this class (explicit scatter-point image before the set_up) and the search goes on behind it.
+// VERIF_NO_EXCLUDE=1 (or =F4) switches classification and rewriting off.
+// Repaired in /repo and part of the normal search again (regression inputs replays/C16/fixed_*.json): F1 stale 511 keV
+// efficiency after an energy-window change, F3 NaN from the automatic scatter-point image of single-ring scanners.
+// F2 (debug self check of set_up that reads 0 < 0 for single-ring templates) was no violation of the property: see set_up_obj().
 //
 // Preconditions taken from the code (ScatterSimulation.cxx unless said otherwise):
 //  * set_up(): error() unless template, exam info (with energy window, ExamInfo::has_energy_information:
@@ -50,8 +51,8 @@ const double TOL_SYM = 1e-5;   // out[bin(A,B)] vs out[bin(B,A)]
 const double TOL_LIN = 1e-4;   // linearity
 const double TOL_CACHE = 1e-5; // cache on vs off
 
-//! exclusions of known findings (work/notes/C16_findings.md) are on by default;
-//! VERIF_NO_EXCLUDE=1 (or "all") switches all of them off, VERIF_NO_EXCLUDE=F1,F4 only the named ones
+//! the exclusion of the known finding F4 is on by default;
+//! VERIF_NO_EXCLUDE=1 (or "all", or a list containing F4) switches it off
 bool
 no_exclude(const char* id)
 {
@@ -309,9 +310,23 @@ configure_fresh(const Pools& P, const Settings& st, const Model& M, bool use_cac
   return f;
 }
 
+//! set_up().  For a single-ring template ScatterSimulation::set_up's debug-only self check of the axial coordinate convention,
+//! assert(fabs(m_last + m_first) < m_last * 10E-4), reads 0 < 0 (get_m of the only ring is 0): the assertion says nothing
+//! about such a template, builds with NDEBUG are not affected and no clause of the property depends on it.  The property is
+//! therefore decided on what set_up does without its internal assertions for these templates (outputs are still compared
+//! with the fresh object, checked for finite / non-negative values etc.; process_data runs with assertions on).
 Succeeded
 set_up_obj(SingleScatterSimulation& s)
 {
+  const bool single_ring = s.has_template_proj_data_info() && s.get_template_proj_data_info_sptr()->get_scanner_ptr()->get_num_rings() == 1;
+  if (!single_ring)
+    return s.set_up();
+  stats().count("set_up with a single-ring template (internal assertions off)");
+  struct AssertsOff
+  {
+    AssertsOff() { stir_verif::asserts_on = false; }
+    ~AssertsOff() { stir_verif::asserts_on = true; }
+  } off;
   return s.set_up();
 }
 
@@ -472,7 +487,7 @@ check(const json& c)
   // set_up on H with the same outcome as on a fresh object; returns false if both reject the configuration
   auto do_set_up = [&](bool& rejected) -> Result {
     rejected = false;
-    // (histories that run into a known finding never get here unless VERIF_NO_EXCLUDE is set: known_signature())
+    // (histories that run into the known finding never get here unless VERIF_NO_EXCLUDE is set: known_signature())
     if (!M.sp_set)
       {
         stats().count("set_up with automatic scatter-point down-sampling");
@@ -733,31 +748,19 @@ check(const json& c)
   return Result::pass();
 }
 
-// ---- known findings: classification of a history without running it --------------------------------------
+// ---- known finding: classification of a history without running it ----------------------------------------
 // The same interpretation of the events as in check() (indices modulo the pools, set_up before a process_data that
 // follows a setter, set_up at the end of a history that ends with a setter), on the JSON only.
-//  F1 C16:stale-eff511:set_exam_info-after-process_data   set_up with an energy window that differs from the one in force at
-//     the first process_data after the last set_template_proj_data_info (detector_efficiency_no_scatter is never reset)
-//  F2 C16:single-ring:set_up-assert                       set_up with a single-ring template (debug assertion 0 < 0)
-//  F3 C16:single-ring:auto-zoom-NaN                       set_up that has to derive the scatter-point image with the default
-//     zoom settings for a single-ring template (one plane, zoom_z = 0, NaN)
 //  F4 C16:auto-zoom-overwritten:second-automatic-downsample   set_up that has to derive the scatter-point image with the
 //     default zoom settings on an object that already derived one for another template or attenuation grid
 //     (incl. F4b: derived image kept by set_template_proj_data_info)
 enum Finding
 {
   NONE = 0,
-  F1,
-  F2,
-  F3,
   F4
 };
-const char* const finding_id[] = { "", "F1", "F2", "F3", "F4" };
-const char* const finding_signature[] = { "",
-                                          "C16:stale-eff511:set_exam_info-after-process_data",
-                                          "C16:single-ring:set_up-assert",
-                                          "C16:single-ring:auto-zoom-NaN",
-                                          "C16:auto-zoom-overwritten:second-automatic-downsample" };
+const char* const finding_id[] = { "", "F4" };
+const char* const finding_signature[] = { "", "C16:auto-zoom-overwritten:second-automatic-downsample" };
 
 struct Hit
 {
@@ -766,13 +769,7 @@ struct Hit
   int tmpl = -1, att = -1;
 };
 
-int
-rings_of(const json& t)
-{
-  return t["kind"] == "down" ? t["new_rings"].get<int>() : t["scanner"]["rings"].get<int>();
-}
-
-//! first known finding (among those not switched off by VERIF_NO_EXCLUDE) the history runs into
+//! the first set_up of the history that runs into the known finding (unless switched off by VERIF_NO_EXCLUDE)
 Hit
 first_known_finding(const json& c)
 {
@@ -784,20 +781,14 @@ first_known_finding(const json& c)
   const bool explicit_zoom = c["auto_zoom"].is_object();
   int tmpl = -1, exam = -1, act = -1, att = -1;
   bool sp_set = false, use_cache = true, dirty = true, derived = false;
-  int auto_tmpl = -1, auto_att = -1, eff_exam = -1;
+  int auto_tmpl = -1, auto_att = -1;
   auto set_up_point = [&](std::size_t i) -> Hit {
     Hit h;
     h.op = i;
     h.tmpl = tmpl;
     h.att = att;
-    const int rings = rings_of(c["templates"][std::size_t(tmpl)]);
     if (!sp_set && !explicit_zoom)
       {
-        if (rings == 1 && !no_exclude("F3"))
-          {
-            h.f = F3;
-            return h;
-          }
         if (derived && !no_exclude("F4") && !(auto_tmpl == tmpl && same_grid(c["atts"][std::size_t(auto_att)], c["atts"][std::size_t(att)])))
           {
             h.f = F4;
@@ -809,18 +800,6 @@ first_known_finding(const json& c)
         derived = true;
         auto_tmpl = tmpl;
         auto_att = att;
-      }
-    if (rings == 1 && !no_exclude("F2"))
-      {
-        h.f = F2;
-        return h;
-      }
-    if (eff_exam >= 0 && !no_exclude("F1")
-        && (c["exams"][std::size_t(eff_exam)]["low"] != c["exams"][std::size_t(exam)]["low"]
-            || c["exams"][std::size_t(eff_exam)]["high"] != c["exams"][std::size_t(exam)]["high"]))
-      {
-        h.f = F1;
-        return h;
       }
     dirty = false;
     return h;
@@ -834,7 +813,7 @@ first_known_finding(const json& c)
         case SET_ACT: act = a % na; dirty = true; break;
         case SET_ATT: att = a % nm; sp_set = false; dirty = true; break;
         case SET_SP: sp_set = true; dirty = true; break;
-        case SET_TMPL: tmpl = a % nt; eff_exam = -1; dirty = true; break;
+        case SET_TMPL: tmpl = a % nt; dirty = true; break;
         case SET_EXAM: exam = a % ne; dirty = true; break;
         case SET_CACHE:
           if (use_cache != bool(a & 1))
@@ -850,8 +829,6 @@ first_known_finding(const json& c)
               if (h.f != NONE)
                 return h;
             }
-          if (code == PROCESS && eff_exam < 0)
-            eff_exam = exam;
           break;
         }
     }
@@ -870,8 +847,8 @@ known_signature(const json& c)
   return finding_signature[first_known_finding(c).f];
 }
 
-//! generator side: rewrite the history so that it stays outside the known findings (the search goes on behind them):
-//! F3/F4: give an explicit scatter-point image before the set_up; F1: re-set the (same) template before the set_up
+//! generator side: rewrite the history so that it stays outside the known finding (the search goes on behind it):
+//! F4: give an explicit scatter-point image before the set_up
 void
 avoid_known_findings(json& c, Src& s)
 {
@@ -880,13 +857,7 @@ avoid_known_findings(json& c, Src& s)
       const Hit h = first_known_finding(c);
       if (h.f == NONE)
         return;
-      json op;
-      if (h.f == F3 || h.f == F4)
-        op = { int(SET_SP), h.att, int(s.range(0, 999)), 1 + 3 * int(s.range(0, 4)), int(s.range(0, 999)) };
-      else if (h.f == F1)
-        op = { int(SET_TMPL), h.tmpl, 0, 0, 0 };
-      else
-        return; // F2: the generator does not make single-ring templates while F2 is excluded
+      const json op = { int(SET_SP), h.att, int(s.range(0, 999)), 1 + 3 * int(s.range(0, 4)), int(s.range(0, 999)) };
       stats().count(std::string("generator avoided known finding ") + finding_id[h.f]);
       json& ops = c["ops"];
       ops.insert(ops.begin() + std::ptrdiff_t(std::min(h.op, ops.size())), op);
@@ -980,9 +951,7 @@ gen(Src& s, int size)
     {
       json t;
       const int ndet = 2 * int(s.range(2, 8)); // 4..16
-      // (single-ring scanners: known finding F2, generated only when that exclusion is lifted)
-      const int rings_drawn = int(s.pick(std::vector<int>{ 1, 2, 2, 2, 3, 3, 3, 3 }));
-      const int rings = (rings_drawn == 1 && !no_exclude("F2")) ? 2 : rings_drawn;
+      const int rings = int(s.pick(std::vector<int>{ 1, 2, 2, 2, 3, 3, 3, 3 }));
       const double ring_spacing = axial_len / rings;
       if (s.chance(2, 3))
         {
